@@ -90,6 +90,19 @@ CHECKS = {
              "schedules. Inputs are sampled.",
         design_ref="DESIGN.md section 4, C14",
         note=TRUST_A),
+    "C17": dict(
+        engine="histsim",
+        technique="deterministic simulation of operation histories: seeded sequences of columnfile operations on up to "
+                  "three live objects (copies stay in the machine) against an ordered-dict reference model, compared "
+                  "after every step; failing histories are delta-debugged to a minimal operation list",
+        text="The state of a columnfile is three hand-maintained aliases of the same columns; the property is about "
+             "the history of calls. Histories start from empty / dict-built / text-loaded / HDF-loaded objects and "
+             "mix additions, overwrites through every view (scalar, array, several dtypes), in-place writes, filters, "
+             "row removals, sorts, reorders, copies, row-copies and bigarray reads/writes. A raising operation must "
+             "leave the object consistent. Histories are sampled, not enumerated.",
+        design_ref="DESIGN.md section 4, C17",
+        note="Trusted base: the reference model in checks/c17.py (ordered dict of lists plus numpy's own casting rule "
+             "for in-place writes into integer/float32 columns); numpy and h5py taken as correct."),
 }
 
 NOT_APPLICABLE = {
